@@ -258,7 +258,7 @@ def build(repo):
                         'before:Controller.add_new_direction_while_growing#2': [('random growing directions only while the initial set is still growing:: not finished_growing', 'C19')],
                         'before:Controller.get_new_direction_for_growing#1': [('random perturbation only while growing and under growing.perturb_trust_region_step:: '
                                                                               'not finished_growing and params("growing.perturb_trust_region_step")', 'C19')],
-                        'return#1': [('exit at x0 names x0 as evaluation point nx:: result[10] == nx and result[4] == num_samples_run and result[0] == x0', 'C03'),
+                        'return@text:obj0_avg': [('exit at x0 names x0 as evaluation point nx:: result[10] == nx and result[4] == num_samples_run and result[0] == x0', 'C03'),
                                            ('(C10 a) a SUCCESS exit at x0 returns an objective (sum of squares of the averaged residual plus h(x0)) that passed the abs_tol test:: '
                                             'implies(result[8].flag == EXIT_SUCCESS, LEQ(result[2], params("model.abs_tol")) and '
                                             'result[2] == ite(isnone(h), SUMSQ(result[1]), ADDV(SUMSQ(result[1]), HVAL(RS(x0)))) and result[1] == MEANV(rvec_list, num_samples_run))', 'C10', 'C06'),
@@ -277,7 +277,7 @@ def build(repo):
                ghost_after_assign={'ratio': [('G.better', 'POS(ratio)')]},
                ghost_before={'Controller.initialise_coordinate_directions#1': [('G.fullinit', 'params("growing.ndirs_initial") >= npt - 1')],
                              'Controller.initialise_random_directions#1': [('G.fullinit', 'params("growing.ndirs_initial") >= npt - 1')]},
-               ghost_return_at={'return#1': [('G.ent', 'newent(result[0], result[1], result[2], result[4], result[10])')]},
+               ghost_return_at={'return@text:obj0_avg': [('G.ent', 'newent(result[0], result[1], result[2], result[4], result[10])')]},
                ensures=[('returned (x, resid, obj, nsamples, eval number) is one whole entry:: result[0] == EX(G.ent) and result[1] == ER(G.ent) and '
                          'result[2] == EO(G.ent) and result[4] == ENS(G.ent) and result[10] == EEN(G.ent)', 'C03'),
                         ('returned Jacobian comes with its own evaluation numbers:: isnone(result[3]) or (result[3] == EJ(G.entjac) and result[11] == EJN(G.entjac))', 'C11'),
